@@ -55,6 +55,10 @@ var detTemplates = []detTemplate{
 	{name: "prune-random", args: []string{"prune", "-i", "@one.nw", "--random", "2", "--seed", "@SEED", "-o", "@OUT"}},
 	{name: "prune-random-revert", args: []string{"prune", "-i", "@one.nw", "--random", "4", "-r", "--seed", "@SEED", "-o", "@OUT"}},
 	{name: "resolve", args: []string{"resolve", "-i", "@one.nw", "--seed", "@SEED", "-o", "@OUT"}},
+	{name: "rename-chain", args: []string{"rename", "-i", "@one.nw", "-m", "@chain.txt", "--seed", "@SEED", "-o", "@OUT"}},
+	{name: "rename-chain-internal", args: []string{"rename", "-i", "@named.nw", "-m", "@chain.txt", "--internal", "--seed", "@SEED", "-o", "@OUT"}},
+	{name: "reformat-nexus-translate-numeric", args: []string{"reformat", "nexus", "-i", "@numeric.nw", "--translate", "--seed", "@SEED", "-o", "@OUT"}},
+	{name: "reformat-newick-from-numeric-nexus", args: []string{"reformat", "newick", "-i", "@numeric.nx", "-f", "nexus", "--seed", "@SEED", "-o", "@OUT"}},
 	{name: "rename-auto", args: []string{"rename", "-i", "@trees.nw", "--auto", "--internal", "--tips", "-l", "6", "--seed", "@SEED", "-o", "@OUT"}},
 	{name: "reformat-nexus-translate", args: []string{"reformat", "nexus", "-i", "@trees.nw", "--translate", "--seed", "@SEED", "-o", "@OUT"}},
 	{name: "edgetrees", args: []string{"compute", "edgetrees", "-i", "@one.nw", "-t", "@T", "--seed", "@SEED", "-o", "@OUTPREFIX"}, threaded: true},
@@ -226,6 +230,42 @@ func genDetFiles(rt *rapid.T) map[string]string {
 	}
 	files["prot.fa"], files["nt.fa"], files["states.txt"] = prot.String(), nt.String(), states.String()
 	files["map.txt"] = "t0\tA0\nt1\tB1\nt2\tC2\n"
+	// a chained map: some new names are other nodes' old names
+	files["chain.txt"] = "t0\tt1\nt1\tt2\nt2\tt3\nt3\tt4\nt4\tzz\n"
+	named := RandomTree(tx, r, 3, true)
+	for i, x := range innerNodes(named) {
+		x.Label = "t" + strconv.Itoa(i%3) + "x"
+	}
+	files["named.nw"] = named.Newick() + "\n"
+	// numeric tip names overlapping the indices of a translate table
+	var numtx []string
+	for i := range tx {
+		numtx = append(numtx, strconv.Itoa(i+1))
+	}
+	var numtrees []string
+	for i := 0; i < 3; i++ {
+		numtrees = append(numtrees, RandomTree(numtx, r, 3, true).Newick())
+	}
+	files["numeric.nw"] = strings.Join(numtrees, "\n") + "\n"
+	var nnx strings.Builder
+	nnx.WriteString("#NEXUS\nBEGIN TAXA;\n DIMENSIONS NTAX=" + strconv.Itoa(ntax) + ";\n TAXLABELS " + strings.Join(numtx, " ") + ";\nEND;\nBEGIN TREES;\n TRANSLATE\n")
+	for i, n := range numtx {
+		sep := ","
+		if i == len(numtx)-1 {
+			sep = ""
+		}
+		fmt.Fprintf(&nnx, "  %d %s%s\n", i, n, sep)
+	}
+	nnx.WriteString(" ;\n")
+	for i, t := range numtrees {
+		tt := t
+		for j := len(numtx) - 1; j >= 0; j-- { // write the trees with the indices
+			tt = replaceTip(tt, numtx[j], "#"+strconv.Itoa(j))
+		}
+		fmt.Fprintf(&nnx, " TREE t%d = %s\n", i, strings.ReplaceAll(tt, "#", ""))
+	}
+	nnx.WriteString("END;\n")
+	files["numeric.nx"] = nnx.String()
 	files["tips.txt"] = "t0\nt2\nt3\n"
 	files["groups.txt"] = "t0,n0a,n0b\nt3,n3a\n"
 	files["annot.txt"] = "anc1:t0,t1\nanc2:t2,t3,t4\n"
